@@ -280,7 +280,7 @@ def run_cases(ctx, cases):
 
 def run_generic(ctx, prop, writes, dyn, rule, trusted, assume):
     proof = prove(prop, ['engine'], dyn,
-                  static_deps=['Proofs/CtrProofs.v', 'Proofs/TwlProofs.v', 'Proofs/WrapInstances.v', 'Proofs/WindowProofs.v',
+                  static_deps=['Proofs/CtrProofs.v', 'Proofs/CtrChunkProofs.v', 'Proofs/TwlProofs.v', 'Proofs/WrapInstances.v', 'Proofs/WindowProofs.v',
                                'Spec/StreamCipher.v', 'Env/FileIface.v'])
     run_cases(ctx, gen_cases(ctx, ctx.rng, writes))
     extra = {}
